@@ -135,9 +135,17 @@ func genToken(r *Rand, kind string) int {
 }
 
 // struct contents: data bytes (random / zero / ones) with the discriminant optionally forced
+// fullBig: which cases on the 65535-word boundary schemas use a full-size (512 KiB) runtime struct;
+// the others use a struct of at most 8200 words (the field is then outside: default / panic).
+// Each full-size case costs the extracted model about a second.
+var fullBig = false
+
 func genStruct(r *Rand, f fieldRec, active int) (string, string) {
 	// data size in words: usually the schema's, sometimes shorter (older writer) or longer
 	dw := int(f.DWC)
+	if dw > 20000 && !fullBig {
+		dw = r.Intn(8201)
+	}
 	switch r.Intn(8) {
 	case 0:
 		dw = r.Intn(dw + 1)
@@ -147,6 +155,9 @@ func genStruct(r *Rand, f fieldRec, active int) (string, string) {
 		if dw > 0 {
 			dw--
 		}
+	}
+	if dw > 65535 {
+		dw = 65535
 	}
 	data := make([]byte, dw*8)
 	switch r.Intn(5) {
@@ -179,7 +190,9 @@ func genStruct(r *Rand, f fieldRec, active int) (string, string) {
 	case 0:
 		pc = r.Intn(pc + 1)
 	case 1:
-		pc++
+		if pc < 65535 {
+			pc++
+		}
 	}
 	toks := make([]string, pc)
 	for i := range toks {
@@ -231,7 +244,14 @@ func runC15(out *Out, r *Rand, tier string, replay []string) {
 		for _, f := range tab.Fields {
 			hasGet := f.Kind != "void"
 			hasSet := f.Kind != "void" && f.Kind != "group" || f.Disc != 65535
-			for k := 0; k < per; k++ {
+			n := per
+			if f.DWC > 1024 || f.PC > 1024 { // boundary structs: 64 KiB .. 512 KiB of data per case line
+				n = 1
+				if tier == "thorough" {
+					n = 3
+				}
+			}
+			for k := 0; k < n; k++ {
 				active := 1
 				if f.Disc != 65535 && r.Intn(4) == 0 {
 					active = 0
@@ -241,10 +261,17 @@ func runC15(out *Out, r *Rand, tier string, replay []string) {
 				}
 				data, ptrs := genStruct(r, f, active)
 				if hasGet {
+					if f.DWC > 20000 && (f.Req == "bnd_65535_1" && f.Kind == "u64" || tier == "thorough") {
+						fullBig = true
+						data, ptrs = genStruct(r, f, active)
+						fullBig = false
+					}
 					lines = append(lines, caseLine("get", f, data, ptrs, "-"))
 				}
 				if hasSet {
+					fullBig = f.Req == "bnd_65535_1" || tier == "thorough"
 					data, ptrs = genStruct(r, f, r.Intn(3))
+					fullBig = false
 					lines = append(lines, caseLine("set", f, data, ptrs, genValue(r, f.Kind)))
 				}
 				if isPtr(f.Kind) {
@@ -265,7 +292,7 @@ func runC15(out *Out, r *Rand, tier string, replay []string) {
 				}
 			}
 			// the getter on an all-zero struct of the schema's size returns the default
-			if hasGet && (f.Disc == 65535 || f.Disc == 0) {
+			if hasGet && (f.Disc == 65535 || f.Disc == 0) && (f.DWC <= 20000 || tier == "thorough") {
 				zp := "-"
 				if f.PC > 0 {
 					zp = strings.TrimSuffix(strings.Repeat("0,", int(f.PC)), ",")
@@ -278,7 +305,11 @@ func runC15(out *Out, r *Rand, tier string, replay []string) {
 				lines = append(lines, fmt.Sprintf("size %s %s - void %d %d 65535 0 - - -", n.Req, n.Type, n.DWC, n.PC))
 			}
 			if n.DiscCount > 0 {
-				for k := 0; k < per; k++ {
+				nw := per
+				if n.BaseDWC > 1024 || n.BasePC > 1024 {
+					nw = 1
+				}
+				for k := 0; k < nw; k++ {
 					f := fieldRec{Req: n.Req, Type: n.Type, Name: "-", Kind: "void", DefDyn: "0", Disc: 65535, DOff: n.DiscOff, DWC: n.BaseDWC, PC: n.BasePC}
 					data, ptrs := genStruct(r, f, 2)
 					lines = append(lines, caseLine("which", f, data, ptrs, "-"))
